@@ -157,6 +157,32 @@ def run(plan):
             dev.script = [{"drop": True}, {"mutate": plan["mutate"]}]
             ntx = 2
             w.fire("altered_reply_to_a_retransmission")
+        for pm in plan.get("before", []):
+            # history on this LAN object: earlier replies were altered too (each rejected, each followed by the
+            # library's own reconnect) - what was learned from them must not weaken the check of the next one
+            dev.script = [{"mutate": pm}]
+            try:
+                g = await lan.send(b"\xaa\x05", retries=1)
+            except Exception as e:
+                if not isinstance(e, w.ns.lan.ProtocolError):
+                    res.fail(f"corrupted packet raised {type(e).__name__} instead of ProtocolError", repr(e))
+                    return
+                g = None
+            if g is not None and g != [reply]:
+                res.fail("altered packet accepted and decoded to a different frame", f"earlier altered reply: {g!r}")
+                return
+            w.fire("earlier_altered_reply_on_the_same_object")
+            dev.script = [{"mutate": plan["mutate"]}]
+        if plan.get("queued_before"):
+            # an authentic unsolicited packet is already waiting in the queue when the request is sent
+            dev.script = [{"dup": 1, "gap": 0.05}] + dev.script
+            try:
+                await lan.send(b"\xaa\x00", retries=1)
+            except Exception as e:
+                res.fail(f"clean exchange raised {type(e).__name__}", repr(e))
+                return
+            await asyncio.sleep(0.2)
+            w.fire("authentic_packet_queued_before_the_request")
         if plan.get("authentic_after"):
             # the altered packet and an intact repetition reach the client in the same instant
             dev.script[-1] = dict(dev.script[-1], authentic_after=True, gap=0)
@@ -188,7 +214,10 @@ def run(plan):
         import refmodel.codec as codec
         orig = codec.v2_encode(dev.device_id, reply, magic=dev.resp_magic)
         conn = w.net.conns[-1]
-        delivered = bytes(conn.tx_stream)[len(orig) if (plan.get("warm") and not plan.get("abandoned")) else 0:]
+        if plan.get("before") or plan.get("queued_before"):
+            delivered = bytes(conn.tx_stream)[-len(orig):] if plan["mutate"]["kind"] != "trunc" else b""
+        else:
+            delivered = bytes(conn.tx_stream)[len(orig) if (plan.get("warm") and not plan.get("abandoned")) else 0:]
         if plan.get("authentic_after") and delivered.endswith(orig) and len(delivered) > len(orig):
             delivered = delivered[:-len(orig)]
         delivered_changed[0] = delivered != orig
@@ -223,7 +252,7 @@ def run(plan):
         res.fail(f"liveness: {type(e).__name__}", str(e))
     res.take(w)
     res.add_fired(dev.fired)
-    res.key = (plan["reply"], repr(plan["mutate"]), bool(plan.get("warm")), bool(plan.get("as_extra")), bool(plan.get("pair")), bool(plan.get("after_drop")), plan["config"].get("version"), bool(plan.get("straddle")), bool(plan.get("authentic_after")), bool(plan.get("abandoned")), bool(plan.get("then_authentic")))
+    res.key = (plan["reply"], repr(plan["mutate"]), bool(plan.get("warm")), bool(plan.get("as_extra")), bool(plan.get("pair")), bool(plan.get("after_drop")), plan["config"].get("version"), bool(plan.get("straddle")), bool(plan.get("authentic_after")), bool(plan.get("abandoned")), bool(plan.get("then_authentic")), repr(plan.get("before")), bool(plan.get("queued_before")))
     res.nontrivial = delivered_changed[0]
     return res
 
@@ -311,9 +340,18 @@ def space(tier):
             m = {"kind": "trunc", "len": rng.randrange(1, n)}
         else:
             m = {"kind": "multi", "edits": [[rng.randrange(n), rng.randrange(1, 256)]]}
-        return {"config": dict(base, device_id=rng.getrandbits(64)), "reply": rand_bytes(rng, L).hex(), "mutate": m,
+        p = {"config": dict(base, device_id=rng.getrandbits(64)), "reply": rand_bytes(rng, L).hex(), "mutate": m,
                 "warm": rng.random() < 0.5, "as_extra": rng.random() < 0.25, "pair": rng.random() < 0.4,
                 "then_authentic": rng.random() < 0.5,
                 "after_drop": rng.random() < 0.25, "authentic_after": rng.random() < 0.2, "abandoned": rng.random() < 0.2}
+        if p["as_extra"] or p["abandoned"] or p["authentic_after"] or p["after_drop"]:
+            return p
+        if rng.random() < 0.3:
+            # two or three earlier altered replies: header / signature bytes only, or anywhere
+            p["before"] = [{"kind": "multi", "edits": [[rng.choice([rng.randrange(0, 40), n - 1 - rng.randrange(0, 16), rng.randrange(n)]),
+                                                        rng.randrange(1, 256)]]} for _ in range(rng.randint(2, 3))]
+        elif rng.random() < 0.3:
+            p["queued_before"] = True
+        return p
     sp.add("random_packets", 3000 if tier == "quick" else 400_000, rnd)
     return sp
